@@ -93,18 +93,67 @@ def walk_manifest(parsed, problems, tag):
     return comps
 
 
+_ART_DIR = None
+
+
+class same_build_dir:
+    """every case of this process renders into the *same* artifacts folder, with the child envelopes regenerated under the same names
+    (a build directory is reused from build to build; anything remembered under a file path would be stale)"""
+
+    def __enter__(self):
+        global _ART_DIR
+        import atexit, shutil
+        if _ART_DIR is None:
+            _ART_DIR = tempfile.mkdtemp(prefix="verif_c19_")
+            atexit.register(lambda: shutil.rmtree(_ART_DIR, ignore_errors=True))
+        for f in os.listdir(_ART_DIR):
+            fp = os.path.join(_ART_DIR, f)
+            if os.path.isfile(fp):
+                os.unlink(fp)
+        return _ART_DIR
+
+    def __exit__(self, *a):
+        return False
+
+
+_MASK = (True,) * 6
+DEFAULT_NAMES = (("nordicsemi.com", "nRF54H20_sample_root"), ("nordicsemi.com", "nRF54H20_sample_app"), ("nordicsemi.com", "nRF54H20_sample_rad"))
+
+
+def effective_names(names, mask):
+    flat = [x for pair in names for x in pair]
+    dflt = [x for pair in DEFAULT_NAMES for x in pair]
+    eff = [a if keep else b for a, b, keep in zip(flat, dflt, mask)]
+    return ((eff[0], eff[1]), (eff[2], eff[3]), (eff[4], eff[5]))
+
+
+def case_root_partial(drv, seed, index, subset, names, varmode, res, mask):
+    """only some of the six MPI names are configured; the expectation uses the configured ones and the defaults of the others"""
+    global _MASK
+    saved_names = names
+    _MASK = mask
+    try:
+        return case_root(drv, seed, index, subset, names, varmode, res)
+    finally:
+        _MASK = (True,) * 6
+
+
 def case_root(drv, seed, index, subset, names, varmode, res):
     from ncs import build as ncs_build
+    configured = names
+    names = effective_names(names, _MASK)
     (rv, rc), (av, ac), (dv, dc) = names
     custom = names != (PLAIN_NAMES[0],) * 3 or True
     problems, mismatch = [], None
-    with tempfile.TemporaryDirectory(prefix="verif_c19_") as d:
+    with same_build_dir() as d:
         art = d + "/"
         cfg = {"sysbuild": {"config": {}}, "artifacts_folder": art}
         if not _NO_MPI:
-            cfg["sysbuild"]["config"].update({"SB_CONFIG_SUIT_MPI_ROOT_VENDOR_NAME": rv, "SB_CONFIG_SUIT_MPI_ROOT_CLASS_NAME": rc,
-                                              "SB_CONFIG_SUIT_MPI_APP_LOCAL_1_VENDOR_NAME": av, "SB_CONFIG_SUIT_MPI_APP_LOCAL_1_CLASS_NAME": ac,
-                                              "SB_CONFIG_SUIT_MPI_RAD_LOCAL_1_VENDOR_NAME": dv, "SB_CONFIG_SUIT_MPI_RAD_LOCAL_1_CLASS_NAME": dc})
+            allkeys = {"SB_CONFIG_SUIT_MPI_ROOT_VENDOR_NAME": rv, "SB_CONFIG_SUIT_MPI_ROOT_CLASS_NAME": rc,
+                       "SB_CONFIG_SUIT_MPI_APP_LOCAL_1_VENDOR_NAME": av, "SB_CONFIG_SUIT_MPI_APP_LOCAL_1_CLASS_NAME": ac,
+                       "SB_CONFIG_SUIT_MPI_RAD_LOCAL_1_VENDOR_NAME": dv, "SB_CONFIG_SUIT_MPI_RAD_LOCAL_1_CLASS_NAME": dc}
+            # a partially customised configuration: only the keys selected by _MASK are present, every other name keeps its own default
+            cfg["sysbuild"]["config"].update({k: v for (k, v), keep in zip(allkeys.items(), _MASK) if keep})
         images = {}
         for key, (v, c) in (("radio", (dv, dc)), ("application", (av, ac)), ("top", ("nordicsemi.com", "nRF54H20_nordic_top"))):
             if key in subset:
@@ -172,7 +221,7 @@ def case_root(drv, seed, index, subset, names, varmode, res):
 def case_top(drv, seed, index, varmode):
     from ncs import build as ncs_build
     problems, mismatch = [], None
-    with tempfile.TemporaryDirectory(prefix="verif_c19_") as d:
+    with same_build_dir() as d:
         art = d + "/"
         cfg = {"artifacts_folder": art, "secdom": {"name": "secdom_img"}, "sysctrl": {"name": "sysctrl_img"}}
         for nm, (v, c) in (("secdom_img", ("nordicsemi.com", "nRF54H20_sec")), ("sysctrl_img", ("nordicsemi.com", "nRF54H20_sys"))):
@@ -260,6 +309,22 @@ def run(tier: str, seed: int) -> int:
                         res.mismatches.append({**o["mismatch"], "subset": list(subset), "names": nm, "vars": varmode})
                     for p in o["problems"]:
                         res.spec_failures.append({"template": "root", "subset": list(subset), "names": nm, "vars": varmode, "index": index, "what": p})
+        # partially customised MPI configurations (each name falls back to its own default)
+        custom = (("acme.example", "acme_root"), ("apps.example", "acme_app"), ("radio.example", "acme_rad"))
+        masks = [(1, 0, 0, 0, 0, 0), (1, 1, 0, 0, 0, 0), (0, 0, 0, 1, 0, 0), (0, 0, 1, 0, 0, 1), (0, 1, 0, 0, 1, 0), (1, 1, 1, 1, 0, 0)]
+        for mi, mask in enumerate(masks if tier == "quick" else masks + [tuple(rng.random() < 0.5 for _ in range(6)) for _ in range(20)]):
+            subset = subsets[(mi + rep) % len(subsets)] if tier == "quick" and mi % 2 else ("radio", "application", "top")
+            index += 1
+            o = case_root_partial(drv, seed, index, subset, custom, "none", res, tuple(bool(x) for x in mask))
+            if o is None:
+                res.count("skipped")
+                continue
+            res.case([sorted(subset), "partial", mask, index])
+            res.count("names:partially-configured")
+            if o["mismatch"]:
+                res.mismatches.append({**o["mismatch"], "subset": list(subset), "configured_mask": list(mask)})
+            for p in o["problems"]:
+                res.spec_failures.append({"template": "root", "subset": list(subset), "configured": custom, "configured_mask": list(mask), "index": index, "what": p})
         for varmode in ("none", "default", "top"):
             index += 1
             o = case_top(drv, seed, index, varmode)
